@@ -177,6 +177,9 @@ def run(chk: Check, tier: str, seed: int) -> None:
     rc = tlc("MC_Tokens", CFG.format(universe="collide"), timeout=600)
     chk.add_tlc(rc)
     collide = [x for x in rc.records if "docs" not in x]
+    rs = tlc("MC_Tokens", CFG.format(universe="swaps"), timeout=600)
+    chk.add_tlc(rs)
+    collide += [x for x in rs.records if "docs" not in x]
     recs.sort(key=lambda x: json.dumps(x["assign"], sort_keys=True))
     if tier == "quick":  # every assignment, programs rotated (thorough: every assignment x every program)
         def delicate(x: Dict[str, Any]) -> bool:
